@@ -25,6 +25,7 @@ struct Case {
   int64_t stop_after = 0;      // stop is called this long after start
   int pre = 0;                 // 0 nothing, 1 wait(INFINITE) before stop (reaped state; needs a child that exits), 2 wait(0) before stop
   int64_t epoch = 1000000;
+  int fail_wait = -1;          // the poll of this executed step's wait is interrupted (EINTR)
 };
 
 int gen_timeout(Tape &t, const Case &c)
@@ -101,6 +102,7 @@ Case decode(Tape &t, long sweep)
   if (c.pre == 1 && c.self_exit_after == model::T_INF) c.pre = 2;
   static const int64_t epochs[] = { 1000000, 1, 1700000000000LL, 2147483000LL, 2199023255000LL, 4102444800000LL };
   c.epoch = epochs[t.pick(6)];
+  if (t.chance(1, 8)) c.fail_wait = (int) t.pick(3);
   return c;
 }
 
@@ -146,6 +148,7 @@ CaseResult run_case(Tape &t, long sweep)
                      .kv("stop_called_after", (long long) c.stop_after)
                      .kv("pre", c.pre)
                      .kv("epoch", (long long) c.epoch)
+                     .kv("wait_interrupted_at_step", c.fail_wait)
                      .str();
   if (!err.empty() || ch.start_result <= 0) {
     w.uninstall();
@@ -192,7 +195,12 @@ CaseResult run_case(Tape &t, long sweep)
   int reaps0 = vs_reaps(ch.pid);
 
   reproc_stop_actions sa = { { (REPROC_STOP) c.act[0].action, c.act[0].timeout }, { (REPROC_STOP) c.act[1].action, c.act[1].timeout }, { (REPROC_STOP) c.act[2].action, c.act[2].timeout } };
+  if (c.fail_wait >= 0 && !reaped) vs_fail_nth(VS_POLL, c.fail_wait);
+  uint32_t polls_before_stop = vs_counts.calls[VS_POLL];
   int r = reproc_stop(ch.p, sa);
+  vs_fail_nth(-1, -1);
+  // was the interrupted wait reached at all?
+  int fail_wait = (c.fail_wait >= 0 && !reaped && vs_counts.calls[VS_POLL] - polls_before_stop > (uint32_t) c.fail_wait) ? c.fail_wait : -1;
   int64_t t1 = w.now;
 
   // ---- compare with the interpreter (both tie resolutions) ---------------
@@ -200,7 +208,7 @@ CaseResult run_case(Tape &t, long sweep)
   bool matched = false;
   model::StopExpect shown;
   for (int variant = 0; variant < 2 && !matched; variant++) {
-    model::StopExpect e = model::interpret_stop(c.act, cs, t0, deadline_abs, reaped, cached, variant == 0);
+    model::StopExpect e = model::interpret_stop(c.act, cs, t0, deadline_abs, reaped, cached, variant == 0, fail_wait, EINTR);
     if (variant == 0) shown = e;
     std::string problem, sig;
     auto bad = [&](const std::string &s, const std::string &m) {
@@ -246,6 +254,9 @@ CaseResult run_case(Tape &t, long sweep)
             bad(sg, "returned " + std::to_string(r) + " although every wait expired with the child alive (expected REPROC_ETIMEDOUT): " + e.trace);
           }
           break;
+        case model::StopExpect::WAIT_ERROR:
+          if (r != -e.error) bad(r >= 0 || r == REPROC_ETIMEDOUT ? "continued-after-failed-wait" : "wrong-error", "the wait of a step failed with " + std::to_string(-e.error) + "; stop returned " + std::to_string(r) + " instead of that error (" + e.trace + ")");
+          break;
         case model::StopExpect::EINVAL_:
           if (r != REPROC_EINVAL) bad("out-of-range-not-rejected", "returned " + std::to_string(r) + " for an out-of-range action (expected REPROC_EINVAL)");
           break;
@@ -280,7 +291,7 @@ CaseResult run_case(Tape &t, long sweep)
   h = mix(h, (uint64_t) c.term_mode | (uint64_t) (c.self_exit_after != model::T_INF) << 2 | (uint64_t) (c.deadline != 0) << 3 | (uint64_t) c.pre << 4 | (uint64_t) shown.kind << 6);
   h = mix(h, (uint64_t) c.stop_after ^ (uint64_t) c.term_delay << 20 ^ (uint64_t) c.self_exit_after << 7);
   res.hash = h;
-  static const char *kinds[] = { "expect-status", "expect-timeout", "expect-einval", "expect-unbounded-wait" };
+  static const char *kinds[] = { "expect-status", "expect-timeout", "expect-einval", "expect-unbounded-wait", "expect-wait-error" };
   res.cls(kinds[shown.kind]);
   if (non_noop == 0) res.cls("all-noop");
   if (oor) res.cls("out-of-range-action");
